@@ -401,6 +401,17 @@ func (r *run) batch(sub []Op) (*failure, bool) {
 					w.total -= m
 					w.connActive -= int64(m)
 					if diffBooks(got, w) == "" {
+						// counts can coincide while the step also opened a connection: the number of drained connections
+						// the pool closed must be the number of them the upstream has seen closed by its peer
+						seenClosed := 0
+						for _, c := range eitherConns {
+							if uc := r.rig.Up.Conn(c.id); uc != nil && uc.PeerClosed {
+								seenClosed++
+							}
+						}
+						if seenClosed != m {
+							return "counts match an alternative the upstream's view does not confirm (yet)"
+						}
 						if fl {
 							// counts alone are ambiguous while another close of the batch is still unnoticed:
 							// the F11 reading must hold for a while with the reset connections still open
